@@ -209,14 +209,27 @@ impl<K, V> DoubleEndedIterator for TakingIterator<K, V> {
 /// [LruCache::drain].
 pub struct Drain<'a, K, V, S> {
     iterator: TakingIterator<K, V>,
-    cache: &'a mut LruCache<K, V, S>
+    cache: PhantomData<&'a mut LruCache<K, V, S>>
 }
 
 impl<'a, K, V, S> Drain<'a, K, V, S> {
     pub(crate) fn new(cache: &'a mut LruCache<K, V, S>) -> Drain<'a, K, V, S> {
+        let iterator = TakingIterator::new(cache);
+
+        // Set the cache as empty right away, without dropping or moving any
+        // entry. From now on, the entries are owned by the iterator alone. If
+        // the drain is leaked, they are leaked as well, but the cache remains
+        // valid. The entries stay in place in the memory of the table, which
+        // cannot be touched while the drain borrows the cache.
+
+        cache.seal.get_mut().next = cache.seal;
+        cache.seal.get_mut().prev = cache.seal;
+        cache.current_size = 0;
+        cache.table.clear_no_drop();
+
         Drain {
-            iterator: TakingIterator::new(cache),
-            cache
+            iterator,
+            cache: PhantomData
         }
     }
 }
@@ -240,14 +253,6 @@ impl<'a, K, V, S> Drop for Drain<'a, K, V, S> {
         // Drop all allocated memory of the remaining elements.
 
         for _ in self.by_ref() { }
-
-        // Set the cache as empty.
-
-        self.cache.seal.get_mut().next = self.cache.seal;
-        self.cache.seal.get_mut().prev = self.cache.seal;
-
-        self.cache.current_size = 0;
-        self.cache.table.clear_no_drop();
     }
 }
 
